@@ -182,12 +182,14 @@ def rand_cfg(rng, kind):
             if rng.random() < 0.5: cfg["los_distributions"] = None; losd = []
         else:         # all scatter keys fixed only
             p_fix = 0.0
+    # a parameter fixed at exactly 0 (xi = 0 is the Gumbel limit, ok = 0 flat, wa = 0 ...) is as fixed as any other value
+    zero = lambda v: 0.0 if rng.random() < 0.2 else v
     for b in ["cosmo", "lens", "kin", "source"]:
-        fx = {k: float(np.round(1000 + 100 * rng.random(), 6)) for k in ALLK[b] if rng.random() < p_fix}
+        fx = {k: zero(float(np.round(1000 + 100 * rng.random(), 6))) for k in ALLK[b] if rng.random() < p_fix}
         if kind == "degenerate" and p_fix == 0.0:
             fx = {k: float(np.round(1000 + 100 * rng.random(), 6)) for k in ALLK[b] if k.endswith("sigma") or k == "sigma_v_sys_error"}
         cfg["kwargs_fixed_" + b] = fx if (fx or rng.random() < 0.7) else None
-    fl = [{k: float(np.round(2000 + 100 * rng.random(), 6)) for k in ALLK["los"] if rng.random() < p_fix} for _ in losd]
+    fl = [{k: zero(float(np.round(2000 + 100 * rng.random(), 6))) for k in ALLK["los"] if rng.random() < p_fix} for _ in losd]
     cfg["kwargs_fixed_los"] = fl if (any(fl) or rng.random() < 0.7 or cfg["los_distributions"] is None) else None
     if cfg["los_distributions"] is None: cfg["kwargs_fixed_los"] = None
     return cfg
